@@ -588,6 +588,9 @@ func c14(r *rng, tier string, o *out) {
 		_ = gzipped
 		dir, _ := os.MkdirTemp("", "vh-c14s")
 		nm := newMetaFor(c)
+		if c%2 == 1 { // a metadata edit that SHRINKS the section (most real edits change a few bytes of JSON)
+			nm = []byte(`{"n":1}`)
+		}
 		os.WriteFile(filepath.Join(dir, "orig.pmtiles"), a.Bytes, 0o644)
 		os.WriteFile(filepath.Join(dir, "m.json"), nm, 0o644)
 		withHJ := r.chance(50)
